@@ -87,6 +87,14 @@ theorem step_proj (pos : Nat) (n : Node) (st : St) :
     | tuple sp elems =>
       simp only [step]
       split <;> simp [mapNext, mapOut]
+    | record sp fs =>
+      simp only [step]
+      split
+      · simp [mapNext, mapOut]
+      · split <;> simp [mapNext, mapOut]
+      · simp [mapNext, mapOut]
+    | fieldShort nsp b => simp [step, mapNext, mapOut]
+    | fieldVal nsp v => simp [step, mapNext, mapOut]
   | variant v =>
     cases v with
     | none => simp [step, mapNext, mapOut]
